@@ -237,7 +237,7 @@ func runConcRing(c *corr.Ctx, cc *ConcCase, budget time.Duration) {
 	var acceptedN, pulledN atomic.Int64
 	var prodWG, allWG sync.WaitGroup
 	closeReturned := make(chan struct{})
-	stuck := make(chan string, 16)
+	stuckCh := make(chan string, 16)
 
 	for p := 0; p < cc.Producers; p++ {
 		prodWG.Add(1)
@@ -311,10 +311,10 @@ func runConcRing(c *corr.Ctx, cc *ConcCase, budget time.Duration) {
 		switch cc.CloseMode {
 		case 0:
 			prodWG.Wait()
-			deadline := time.Now().Add(10 * time.Second)
+			deadline := time.Now().Add(4 * time.Second)
 			for pulledN.Load() < acceptedN.Load() {
 				if time.Now().After(deadline) {
-					stuck <- fmt.Sprintf("consumer pulled %d of %d accepted items and made no progress for 10 s", pulledN.Load(), acceptedN.Load())
+					stuckCh <- fmt.Sprintf("consumer pulled %d of %d accepted items and made no progress for 4 s", pulledN.Load(), acceptedN.Load())
 					break
 				}
 				runtime.Gosched()
@@ -338,13 +338,15 @@ func runConcRing(c *corr.Ctx, cc *ConcCase, budget time.Duration) {
 	go func() { allWG.Wait(); close(finished) }()
 	select {
 	case <-finished:
-	case <-time.After(30 * time.Second):
+	case <-time.After(12 * time.Second):
+		stuck()
 		c.Violate(corr.Violation{Property: "C16", Clause: "a waiting consumer is always woken by a push or a close", Key: "conc-deadlock",
-			Where: "pkg/ringbuffer", Input: cc, Detail: "goroutines still blocked 30 s after the run started"})
+			Where: "pkg/ringbuffer", Input: cc, Detail: "goroutines still blocked 12 s after the run started"})
 		return
 	}
 	select {
-	case s := <-stuck:
+	case s := <-stuckCh:
+		stuck()
 		c.Violate(corr.Violation{Property: "C16", Clause: "a waiting consumer is always woken by a push", Key: "conc-lost-wakeup", Where: "pkg/ringbuffer", Input: cc, Detail: s})
 	default:
 	}
